@@ -241,6 +241,43 @@ class PyRaise(Exception):
         self.line = line
 
 
+class _MaybeUnbound:
+    def __repr__(self):
+        return 'MAYBE_UNBOUND'
+
+
+MAYBE_UNBOUND = _MaybeUnbound()  # environment entry of a name that the loop being cut may or may not have bound
+
+
+def _local_names(fn) -> set:
+    """names that are local variables of `fn` by Python's scoping rule: parameters and every name bound somewhere in its body
+    (not inside nested functions, lambdas, classes or comprehensions), minus those declared global / nonlocal"""
+    out, skip = set(), set()
+    a = fn.args
+    for x in a.posonlyargs + a.args + a.kwonlyargs + ([a.vararg] if a.vararg else []) + ([a.kwarg] if a.kwarg else []):
+        out.add(x.arg)
+    stack = list(fn.body)
+    while stack:
+        n = stack.pop()
+        if isinstance(n, (ast.FunctionDef, ast.AsyncFunctionDef, ast.ClassDef)):
+            out.add(n.name)
+            continue
+        if isinstance(n, (ast.Lambda, ast.ListComp, ast.SetComp, ast.DictComp, ast.GeneratorExp)):
+            # their targets are local to them; a walrus inside a comprehension binds in the enclosing function
+            out.update(t.target.id for t in ast.walk(n) if isinstance(t, ast.NamedExpr) and isinstance(t.target, ast.Name) and not isinstance(n, ast.Lambda))
+            continue
+        if isinstance(n, (ast.Global, ast.Nonlocal)):
+            skip.update(n.names)
+        elif isinstance(n, ast.Name) and isinstance(n.ctx, (ast.Store, ast.Del)):
+            out.add(n.id)
+        elif isinstance(n, ast.ExceptHandler) and n.name:
+            out.add(n.name)
+        elif isinstance(n, (ast.Import, ast.ImportFrom)):
+            out.update((al.asname or al.name).split('.')[0] for al in n.names)
+        stack.extend(ast.iter_child_nodes(n))
+    return out - skip
+
+
 INTERNED_STRINGS = set()  # string literals encoded as constants of the opaque sort; distinct literals denote distinct values
 
 
@@ -766,10 +803,14 @@ class Engine:
         c = self.c
         st = State()
         # environment: module constants, contract constants, spec functions
+        fn_locals = _local_names(self.fn) if c.fragment is None else set()
         for k, v in self.modconsts.items():
-            st.env[k] = v
+            if k not in fn_locals:  # a local variable of that name shadows the module constant in the whole function
+                st.env[k] = v
         for k, v in c.consts.items():
             st.env[k] = v
+        if c.fragment is None:
+            st.env['__locals__'] = frozenset(fn_locals)
         for name, (ats, rt) in c.spec_funcs.items():
             f = self.uf(name, ats, rt)
             rtp = parse_type(rt)
@@ -1077,7 +1118,14 @@ class Engine:
         if isinstance(node, (ast.With, ast.AsyncWith)):
             return self.exec_with(node, st)
         if isinstance(node, (ast.FunctionDef, ast.AsyncFunctionDef)):
-            st.env[node.name] = ('localdef', node)
+            ignored = self.c.consts.get('__ignored_nested_decorators__', ())
+            if any(ast.unparse(d) not in ignored for d in node.decorator_list):
+                # a decorator replaces the function by whatever it returns (and evaluating it may have effects): not modelled,
+                # unless the contract lists the decorator text as one whose effect it models elsewhere
+                raise Undecided('L%d: nested function %s is decorated (%s)' % (node.lineno, node.name, ', '.join(ast.unparse(d) for d in node.decorator_list)))
+            # default values are evaluated once, when the def statement is executed
+            dvals = tuple(self.ev(d, st) for d in node.args.defaults)
+            st.env[node.name] = ('localdef', node, dvals)
             return [(st, ('next',))]
         if isinstance(node, (ast.Import, ast.ImportFrom, ast.Global, ast.Nonlocal)):
             return [(st, ('next',))]
@@ -1090,7 +1138,7 @@ class Engine:
     def delete(self, t, st):
         if isinstance(t, ast.Name):
             if t.id not in st.env:
-                raise PyRaise(SExc('NameError'))
+                raise PyRaise(SExc('UnboundLocalError' if t.id in st.env.get('__locals__', ()) else 'NameError'))
             del st.env[t.id]  # a later read of the name is an unresolved name (SDotted), never the old value
             return
         if isinstance(t, (ast.Tuple, ast.List)):
@@ -1262,6 +1310,12 @@ class Engine:
                         h.assume(w)
                 continue
             if name not in h.env:
+                if name in h.env.get('__locals__', ()):
+                    # not bound before the loop: at the head of an arbitrary iteration, and after the loop, it may or may not
+                    # be bound - reading it before the body assigns it cannot be decided
+                    h.env[name] = MAYBE_UNBOUND
+                continue
+            if h.env[name] is MAYBE_UNBOUND:
                 continue
             t = self.c.types.get(name)
             nv = fresh_value(parse_type(t), name) if t else self.havoc_like(h.env[name], name)
@@ -1403,6 +1457,8 @@ class Engine:
         res = []
         for s2, oc in self.exec_block(h.body, st):
             s2.env['__current_exc__'] = prev
+            if h.name:
+                s2.env.pop(h.name, None)  # `except E as name`: the name is deleted when the handler is left
             res.append((s2, oc))
         return res
 
@@ -1519,9 +1575,18 @@ class Engine:
 
     def ev_Name(self, node, st):
         if node.id in st.env:
-            return st.env[node.id]
+            v = st.env[node.id]
+            if v is MAYBE_UNBOUND:
+                raise Undecided('L%s: %s is bound only inside a loop (unbound if the loop body never assigns it)' % (getattr(node, 'lineno', '?'), node.id))
+            return v
         if node.id in ('True', 'False', 'None'):
             return {'True': True, 'False': False, 'None': None}[node.id]
+        if node.id in st.env.get('__locals__', ()) and not getattr(self, 'in_spec', False):
+            # a local variable of the function that is not bound on this path (never assigned yet, deleted, or the name of an
+            # exception handler after the handler): Python raises, it does not fall back to a global of that name
+            e = SExc('UnboundLocalError')
+            e.line = getattr(node, 'lineno', None)
+            raise PyRaise(e)
         return SDotted(node.id)
 
     def ev_Attribute(self, node, st):
@@ -2490,19 +2555,39 @@ class Engine:
         if a.vararg or a.kwarg or a.kwonlyargs:
             raise Undecided('nested function %s with *args/**kwargs' % fn.name)
         names = [x.arg for x in a.posonlyargs + a.args]
+        # the arguments are evaluated in the caller's state BEFORE the callee's state is derived from it (what evaluating them
+        # does to the path condition and to ghost state is visible in the callee)
+        vals = [self.ev(x, st) for x in node.args]
+        if any(k.arg is None for k in node.keywords):
+            raise Undecided('call of nested function %s with **kwargs' % fn.name)
+        kws = {k.arg: self.ev(k.value, st) for k in node.keywords}
+        if len(vals) > len(names) or any(k_ not in names for k_ in kws) or any(k_ in names[:len(vals)] for k_ in kws):
+            raise PyRaise(SExc('TypeError'))
+        defaults = a.defaults
+        dvals = None
+        for v_ in st.env.values():
+            if isinstance(v_, tuple) and len(v_) == 3 and v_[0] == 'localdef' and v_[1] is fn:
+                dvals = v_[2]  # evaluated when the def statement ran
+        if dvals is None:
+            dvals = [self.ev(d, st) for d in defaults]
         child = State(dict(st.env), list(st.pc))
         child.trace = list(st.trace)
-        vals = [self.ev(x, st) for x in node.args]
-        kws = {k.arg: self.ev(k.value, st) for k in node.keywords}
-        defaults = a.defaults
-        for n_, d in zip(names[len(names) - len(defaults):], defaults):
-            child.env[n_] = self.ev(d, st)
+        stored = {n.id for stmt in fn.body for n in ast.walk(stmt) if isinstance(n, ast.Name) and isinstance(n.ctx, (ast.Store, ast.Del))}
+        for n_ in (stored | _local_names(fn)) - nonlocals - set(names):
+            child.env.pop(n_, None)  # the callee's own locals start unbound (they shadow the enclosing variables of that name)
+        child.env['__locals__'] = frozenset((_local_names(fn) | set(names)) - nonlocals)
+        bound = set()
+        for n_, d in zip(names[len(names) - len(defaults):], dvals):
+            child.env[n_] = d
+            bound.add(n_)
         for n_, v in zip(names, vals):
             child.env[n_] = v
+            bound.add(n_)
         for k_, v in kws.items():
             child.env[k_] = v
-        if any(n_ not in child.env for n_ in names):
-            raise Undecided('call of nested function %s: missing argument' % fn.name)
+            bound.add(k_)
+        if any(n_ not in bound for n_ in names):
+            raise PyRaise(SExc('TypeError'))  # missing argument
         depth = getattr(self, '_ld_depth', 0)
         if depth > 12:
             raise Undecided('nested function recursion')
@@ -2513,8 +2598,7 @@ class Engine:
             self._ld_depth = depth
         # variables of the enclosing scope the nested function can change: those it declares nonlocal, and containers it
         # mutates in place (the executor rebinds the name on append/extend/...); its own parameters and locals stay private
-        stored = {n.id for stmt in fn.body for n in ast.walk(stmt) if isinstance(n, ast.Name) and isinstance(n.ctx, (ast.Store, ast.Del))}
-        own = set(names) | (stored - nonlocals)
+        own = set(names) | (stored - nonlocals) | {'__locals__'}
         shared_names = [n_ for n_ in st.env if n_ not in own]
 
         def writeback(sub):
